@@ -121,6 +121,38 @@ Definition decode_utf16le (bs : list N) : list N :=
 Fixpoint widen (bs : list N) : list N :=
   match bs with [] => [] | b :: t => b :: 0 :: widen t end.
 
+(* ------------------------------------------------------------------ sheet names in formula text *)
+(* utils::quote_sheet_name (commit "fix: sheet names that need quotes were written bare …"), applied
+   where the table the decoders index is built (xls: fmla_sheet_names; xlsb: extern_sheets), not
+   by the decoders themselves:
+     let plain = |c: char| c.is_ascii_alphanumeric() || c == '_' || c == '.' || !c.is_ascii();
+     if name.is_empty() || name.starts_with(|c| c.is_ascii_digit() || c == '.') || !name.chars().all(plain)
+       { format!("'{}'", name.replace('\'', "''")) } else { name.to_string() } *)
+Definition ch_apos : N := 39.
+Definition is_ascii_digit (c : N) : bool := (48 <=? c) && (c <=? 57).
+Definition is_ascii_alpha (c : N) : bool := ((65 <=? c) && (c <=? 90)) || ((97 <=? c) && (c <=? 122)).
+Definition plain_char (c : N) : bool :=
+  (is_ascii_alpha c || is_ascii_digit c) || (c =? 95) || (c =? 46) || (128 <=? c).
+Definition double_apos (s : list N) : list N :=
+  flat_map (fun c => if c =? ch_apos then [ch_apos; ch_apos] else [c]) s.
+Definition quote_sheet_name (name : list N) : list N :=
+  if match name with [] => true | _ => false end
+     || match name with c :: _ => is_ascii_digit c || (c =? 46) | [] => false end
+     || negb (forallb plain_char name)
+  then [ch_apos] ++ double_apos name ++ [ch_apos] else name.
+
+(* SPEC (formula grammar, MS-XLS 2.2.2 / ECMA-376 Part 1 18.17: sheet-name): a sheet name stands
+   bare in front of '!' when it is a word — first character a letter, '_' or a non-ASCII character,
+   the other characters of the same kind, digits or '.' — and between apostrophes, its own apostrophes
+   doubled, otherwise ('My Sheet'!A1, 'O''Neil'!A1, '2024'!A1).  Not expressed here (Excel also
+   quotes them; see notes/C14.md): words that read as a cell reference or a boolean (A1, R1C1, TRUE). *)
+Definition word_start (c : N) : bool := is_ascii_alpha c || (c =? 95) || (128 <=? c).
+Definition word_char (c : N) : bool := word_start c || is_ascii_digit c || (c =? 46).
+Definition bare_sheet (s : list N) : bool :=
+  match s with c :: t => word_start c && forallb word_char t | [] => false end.
+Definition sheet_text (s : list N) : list N :=
+  if bare_sheet s then s else [ch_apos] ++ double_apos s ++ [ch_apos].
+
 (* ------------------------------------------------------------------ error classes *)
 Definition E_STACKLEN : N := 10.
 Definition E_IFTAB : N := 11.
@@ -196,9 +228,23 @@ Fixpoint windows_join (fargs : list N) (offs : list nat) (acc : list N) : outcom
   | _ => Ok acc
   end.
 
+(* &fargs[w0..w1] *)
+Definition slice_w (fargs : list N) (a b : nat) : outcome (list N) :=
+  if ((a <=? b) && (b <=? length fargs))%nat then Ok (firstn (b - a) (skipn a fargs)) else Panic.
+
+(* if formula.ends_with(',') { formula.pop(); } *)
+Definition pop_comma (j : list N) : list N :=
+  if last j 0 =? ch_comma then removelast j else j.
+
 (* the tail of the PtgFunc / PtgFuncVar arm, from [if stack.len() < argc] on.
    Since the C06 hardening both formats use FTAB.get(iftab).ok_or(IfTab)? in both branches
-   ([strict] is kept for the proofs' sake and no longer makes a difference). *)
+   ([strict] is kept for the proofs' sake and no longer makes a difference).
+   Tab 0x00FF (user-defined / future function, commit "fix: user-defined and future functions …"):
+   the first window of the argument offsets is the function NAME, the table is not consulted:
+     let mut windows = args.windows(2);
+     if iftab == 0x00FF { if let Some(w) = windows.next() { formula.push_str(&fargs[w[0]..w[1]]) } }
+     else { formula.push_str(FTAB.get(iftab)?) }
+     formula.push('('); for w in windows { … push(',') }  if formula.ends_with(',') { formula.pop() } *)
 Definition func_apply (strict : bool) (iftab : N) (argc : nat) (s : pstate) : outcome pstate :=
   let (st, buf) := s in
   if (length st <? argc)%nat then Err E_STACKLEN else
@@ -222,12 +268,23 @@ Definition func_apply (strict : bool) (iftab : N) (argc : nat) (s : pstate) : ou
             let pre := fst pf in let fargs := snd pf in
             let st' := length pre :: keep in     (* stack.push(formula.len()) *)
             let rel' := rel ++ [length fargs] in (* args.push(fargs.len()) *)
+            if iftab =? 255 then
+              match rel' with
+              | w0 :: ((w1 :: _) as rest) =>               (* windows.next() = Some([w0, w1]) *)
+                  do nm <- slice_w fargs w0 w1;
+                  do joined <- windows_join fargs rest (pre ++ nm ++ [ch_lpar]);
+                  Ok (st', pop_comma joined ++ [ch_rpar])
+              | _ =>                                       (* windows.next() = None: no name *)
+                  do joined <- windows_join fargs rel' (pre ++ [ch_lpar]);
+                  Ok (st', pop_comma joined ++ [ch_rpar])
+              end
+            else
             do nm <- match nthN Tables.FTAB iftab with
                      | Some nm => Ok nm
                      | None => if strict then Err E_IFTAB else Err E_IFTAB
                      end;
             do joined <- windows_join fargs rel' (pre ++ nm ++ [ch_lpar]);
-            Ok (st', removelast joined ++ [ch_rpar])       (* formula.pop(); formula.push(')') *)
+            Ok (st', pop_comma joined ++ [ch_rpar])        (* if ends_with(',') { pop() }; push(')') *)
       end
   end.
 
@@ -315,35 +372,19 @@ Definition xls_ptgstr (rgce : list N) (s : pstate) : outcome (list N * pstate) :
   do rest <- drop_err (2 + nbytes) rgce;                   (* rgce.get(1 + used..).ok_or(Len)?, used = 1 + nbytes *)
   Ok (rest, (st', snd s ++ [ch_quote] ++ replace_quote txt ++ [ch_quote])).
 
-Fixpoint insert_n (k : nat) (e : nat) (ch : N) (b : list N) : outcome (list N) :=
-  match k with O => Ok b | S k' => do b' <- insert_at e ch b; insert_n k' e ch b' end.
-
 Definition xls_attr (rgce : list N) (s : pstate) : outcome (list N * pstate) :=
   do etpg <- byte_at rgce 0;
   do rgce1 <- drop 1 rgce;
   if (length rgce1 <? 2)%nat then Err E_LEN else            (* "PtgAttr operands" *)
   match etpg with
-  | 0x01 | 0x02 | 0x08 | 0x20 | 0x21 => do r <- drop 2 rgce1; Ok (r, s)
+  (* PtgAttrSpace / PtgAttrSpaceSemi (0x40 / 0x41) are skipped since the commit "fix: xls formulas
+     starting with white space …" (before: white space inserted at the top operand's start) *)
+  | 0x01 | 0x02 | 0x08 | 0x20 | 0x21 | 0x40 | 0x41 => do r <- drop 2 rgce1; Ok (r, s)
   | 0x04 =>
       (* let n = read_u16(&rgce[..2]) as usize + 1; rgce = rgce.get(2 + 2 * n..).ok_or(Len)? *)
       do n <- u16_at rgce1 0;
       do r <- drop_err (2 + 2 * (N.to_nat n + 1)) rgce1; Ok (r, s)
   | 0x10 => do r <- drop 2 rgce1; arm_attrsum r s
-  | 0x40 | 0x41 =>
-      match fst s with
-      | [] => Err E_STACKLEN
-      | e :: _ =>
-          do t <- byte_at rgce1 0;
-          do space <- match t with
-                      | 0x00 | 0x02 | 0x04 | 0x06 => Ok ch_space
-                      | 0x01 | 0x03 | 0x05 => Ok ch_cr
-                      | _ => Err E_UNRECOGNIZED
-                      end;
-          do cch <- byte_at rgce1 1;
-          do b <- insert_n (N.to_nat cch) e space (snd s);
-          do r <- drop 2 rgce1;
-          Ok (r, (fst s, b))
-      end
   | _ => Err E_ETPG
   end.
 
@@ -501,11 +542,15 @@ Definition xlsb_ptgstr (rgce : list N) (s : pstate) : outcome (list N * pstate) 
 Definition xlsb_attr (rgce : list N) (s : pstate) : outcome (list N * pstate) :=
   do etpg <- byte_at rgce 0;
   do rgce1 <- drop 1 rgce;
-  (* check_len("PtgAttr", rgce.len(), if eptg == 0x04 { 10 } else { 2 })? *)
-  if (length rgce1 <? (if (etpg =? 0x04)%N then 10 else 2))%nat then Err E_LEN else
+  (* check_len("PtgAttr", rgce.len(), 2)? *)
+  if (length rgce1 <? 2)%nat then Err E_LEN else
   match etpg with
   | 0x01 | 0x02 | 0x08 | 0x20 | 0x21 | 0x40 | 0x41 | 0x80 => do r <- drop 2 rgce1; Ok (r, s)
-  | 0x04 => do r <- drop 10 rgce1; Ok (r, s)
+  | 0x04 =>
+      (* PtgAttrChoose (commit "fix: xlsb formulas using CHOOSE with other than three values …"):
+         let n = read_u16(&rgce[..2]) as usize + 1; check_len(.., 2 + 2 * n)?; rgce = &rgce[2 + 2 * n..] *)
+      do n <- u16_at rgce1 0;
+      do r <- drop_err (2 + 2 * (N.to_nat n + 1)) rgce1; Ok (r, s)
   | 0x10 => do r <- drop 2 rgce1; arm_attrsum r s
   | _ => Err E_ETPG
   end.
@@ -694,7 +739,11 @@ Inductive expr :=
 | EFunc (k : cls) (iftab : N) (args : list expr)       (* PtgFunc: fixed arity *)
 | EFuncVar (k : cls) (iftab : N) (args : list expr)    (* PtgFuncVar: explicit count *)
 | ESum (a : expr)                                      (* PtgAttrSum *)
-| EAttrSkip (etpg w : N) (a : expr).           (* a display-neutral PtgAttr* in front of a *)
+| EAttrSkip (etpg w : N) (a : expr)            (* a display-neutral PtgAttr* in front of a *)
+| EAttrPost (etpg w : N) (a : expr)            (* a display-neutral PtgAttr* behind a (PtgAttrGoto after a
+                                                  branch of IF / CHOOSE, PtgAttrSpace before an operator) *)
+| EAttrChoose (offs : list N) (a : expr).      (* PtgAttrChoose (cOffset = |offs| - 1, then the jump
+                                                  table offs) in front of a *)
 
 (* ---------- rendering (the A1 text) ---------- *)
 (* operator tokens of MS-XLS 2.5.198: PtgAdd 03 .. PtgConcat 08, PtgLt 09, PtgLe 0A, PtgEq 0B,
@@ -740,6 +789,13 @@ Variable name_of : N -> list N.                (* 1-based name index -> name *)
 
 Definition fname (iftab : N) : list N := match nthN FTAB_REF iftab with Some nm => nm | None => [] end.
 
+(* a PtgFuncVar call, given the texts of its parameters *)
+Definition render_call (iftab : N) (rs : list (list N)) : list N :=
+  match (if iftab =? 255 then rs else []) with
+  | f :: rest => f ++ [ch_lpar] ++ join_comma rest ++ [ch_rpar]
+  | [] => fname iftab ++ [ch_lpar] ++ join_comma rs ++ [ch_rpar]
+  end.
+
 Fixpoint render (e : expr) : list N :=
   match e with
   | ERef _ a => render_cref a
@@ -759,9 +815,14 @@ Fixpoint render (e : expr) : list N :=
   | EBin op a b => render a ++ spec_binop op ++ render b
   | EParen a => ch_lpar :: render a ++ [ch_rpar]
   | EFunc _ iftab args => fname iftab ++ [ch_lpar] ++ join_comma (map render args) ++ [ch_rpar]
-  | EFuncVar _ iftab args => fname iftab ++ [ch_lpar] ++ join_comma (map render args) ++ [ch_rpar]
+  | EFuncVar _ iftab args =>
+      (* tab 0x00FF: the first parameter (a PtgName / PtgNameX) is the NAME of the user-defined or
+         future function, the remaining ones are its arguments (MS-XLS / MS-XLSB PtgFuncVar) *)
+      render_call iftab (map render args)
   | ESum a => lit "SUM(" ++ render a ++ [ch_rpar]
   | EAttrSkip _ _ a => render a
+  | EAttrPost _ _ a => render a
+  | EAttrChoose _ a => render a
   end.
 End Render.
 
@@ -816,6 +877,9 @@ Fixpoint encode (e : expr) : list N :=
       flat_map encode args ++ [cls_ptg 0x22 0x42 0x62 k; N.of_nat (length args)] ++ le 2 iftab
   | ESum a => encode a ++ [0x19; 0x10; 0; 0]
   | EAttrSkip etpg w a => [0x19; etpg] ++ le 2 w ++ encode a
+  | EAttrPost etpg w a => encode a ++ [0x19; etpg] ++ le 2 w
+  | EAttrChoose offs a =>
+      [0x19; 0x04] ++ le 2 (N.of_nat (length offs) - 1) ++ flat_map (le 2) offs ++ encode a
   end.
 End Encode.
 
@@ -838,12 +902,29 @@ Definition encode_xlsb : expr -> list N := encode 4 enc_str_xlsb.
 (* CellParsedFormula: cce (2 bytes) + rgce — what the xls decoder is handed *)
 Definition frame_xls (rgce : list N) : list N := le 2 (N.of_nat (length rgce)) ++ rgce.
 
+(* CHOOSE(idx, v1, …, vn) as Excel writes it (MS-XLS 2.5.198.27 / MS-XLSB 2.5.97.25): the tokens of
+   idx, PtgAttrChoose with cOffset = n and the n + 1 jump offsets [offs], then every value followed by
+   a PtgAttrGoto (its word: [snd]), then PtgFuncVar(n + 1 parameters, tab 100 = CHOOSE).  The jump
+   words only steer evaluation; the theorems hold for any values. *)
+Definition e_choose (k : cls) (idx : expr) (offs : list N) (vals : list (expr * N)) : expr :=
+  EFuncVar k 100
+    (idx :: match vals with
+            | [] => []
+            | (v, g) :: t => EAttrPost 0x08 g (EAttrChoose offs v)
+                             :: map (fun vg => EAttrPost 0x08 (snd vg) (fst vg)) t
+            end).
+
 (* ---------- well-formedness (the domain of the theorems) ---------- *)
 Definition wf_cref (rowlim : N) (a : cref) : bool := (cr_row a <? rowlim) && (cr_col a <? 16384).
 (* Unicode scalar value: below 0x110000 and not a surrogate *)
 Definition scalar (c : N) : bool := (c <? 1114112) && negb ((55296 <=? c) && (c <=? 57343)).
+(* PtgAttrSemi 01, PtgAttrIf 02, PtgAttrGoto 08, PtgAttrBaxcel 20 / 21, PtgAttrSpace 40, PtgAttrSpaceSemi 41:
+   evaluation hints and white space, no text of their own *)
 Definition skip_etpg (e : N) : bool :=
-  (e =? 0x01) || (e =? 0x02) || (e =? 0x08) || (e =? 0x20) || (e =? 0x21).
+  (e =? 0x01) || (e =? 0x02) || (e =? 0x08) || (e =? 0x20) || (e =? 0x21) || (e =? 0x40) || (e =? 0x41).
+(* PtgFuncVar with tab 0x00FF: the first parameter must be a name token *)
+Definition user_fn_ok (iftab : N) (args : list expr) : bool :=
+  if iftab =? 255 then match args with EName _ _ :: _ => true | _ => false end else true.
 
 Section Wf.
 Variable rowlim : N.                            (* 2^16 for xls, 2^32 for xlsb *)
@@ -869,13 +950,18 @@ Fixpoint wf (e : expr) : bool :=
   | EParen a => wf a
   | EFunc _ iftab args =>
       match nthN FTAB_ARGC_REF iftab with
-      | Some n => (n =? N.of_nat (length args)) && (iftab <? FTAB_LEN_REF) && forallb wf args
+      (* tab 0x00FF belongs to PtgFuncVar only *)
+      | Some n => (n =? N.of_nat (length args)) && (iftab <? FTAB_LEN_REF) && negb (iftab =? 255) && forallb wf args
       | None => false
       end
   | EFuncVar _ iftab args =>
-      (iftab <? FTAB_LEN_REF) && (N.of_nat (length args) <? 128) && forallb wf args
+      (iftab <? FTAB_LEN_REF) && (N.of_nat (length args) <? 128) && user_fn_ok iftab args && forallb wf args
   | ESum a => wf a
   | EAttrSkip etpg w a => skip_etpg etpg && (w <? 65536) && wf a
+  | EAttrPost etpg w a => skip_etpg etpg && (w <? 65536) && wf a
+  | EAttrChoose offs a =>
+      (1 <=? N.of_nat (length offs)) && (N.of_nat (length offs) <=? 65536) &&
+      forallb (fun o => o <? 65536) offs && wf a
   end.
 End Wf.
 
@@ -896,7 +982,7 @@ Definition wf_xlsb (env : xlsb_env) : expr -> bool :=
 (* number of tokens of the encoding = fuel the decoder loop consumes *)
 Fixpoint ntok (e : expr) : nat :=
   match e with
-  | EUn _ a | EParen a | ESum a | EAttrSkip _ _ a => S (ntok a)
+  | EUn _ a | EParen a | ESum a | EAttrSkip _ _ a | EAttrPost _ _ a | EAttrChoose _ a => S (ntok a)
   | EBin _ a b => S (ntok a + ntok b)
   | EFunc _ _ args | EFuncVar _ _ args => S (fold_right (fun a acc => ntok a + acc)%nat O args)
   | _ => 1
